@@ -22,8 +22,7 @@ from .. import coqenc as q
 ID = 'C19'
 RULE = ('exhaustive: every well-bracketed operation sequence up to the tier\'s length over a 12-operation '
         'emitter alphabet (3 connects: by name / explicit event / sender-filtered / last; unconnect by function '
-        'and by sender; reset; silent() enter/leave; set_silent True/False; two emits, one single; thorough: plus '
-        'leave-by-exception) and over a 7-operation silencing alphabet (connect, enter, leave, leave by an '
+        'and by sender; reset; silent() enter/leave; set_silent True/False; two emits, one single) and over a 7-operation silencing alphabet (connect, enter, leave, leave by an '
         'exception, set_silent True/False, emit) one step longer, that contains '
         'an emit, and every reporter history up to the tier\'s length over {increment, value in 0/1/2/5, maximum '
         'in 0/1/2/5, set_complete, reset(None/1/5)}; then seeded random longer histories over the wide alphabet '
@@ -306,14 +305,14 @@ def generate(tier, rng):
             cases.append(_rand_histx(rng, 2, 10))
         return cases
     quick = tier == 'quick'
-    cases += list(_exhaustive_hist(4, SMALL) if quick else _exhaustive_hist(5, SMALL + [EXX]))
+    cases += list(_exhaustive_hist(4 if quick else 5, SMALL))
     cases += list(_exhaustive_hist(5 if quick else 6, SILENCING))
     cases += list(_exhaustive_prog(PQUICK if quick else PSMALL, 4 if quick else 5))
     if quick:
         cases += list(_exhaustive_prog(PSMALL, 3))
-    cases += list(_exhaustive_prog(PKW, 3 if quick else 5))
+    cases += list(_exhaustive_prog(PKW, 3 if quick else 4))
     cases += list(_exhaustive_histx(4 if quick else 5))
-    nh, np_ = (3600, 1500) if quick else (60000, 30000)
+    nh, np_ = (3600, 1500) if quick else (40000, 20000)
     for _ in range(nh):
         cases.append(_rand_hist(rng, 2, 9 if quick else 12))
     for _ in range(np_):
